@@ -20,6 +20,7 @@
 // as witness.
 //
 //	rq <i|q> <route id> <hex of the request bytes>          one HTTP/1.1 request, sent as it is
+//	sq <i|q> <route id> <hex> <i|q>:<hex> …                  the same, after the requests that PREPARE it (stored data that a later read meets)
 //	ws <route id> <hex of the JSON text frame>               websocket routes: upgrade, one text frame, read until closed
 //	om <hex text> / ot <hex text>                            the OpenTSDB `m=` / time parsers against their Lean model (Model/OtsdbQuery.lean)
 //
@@ -51,11 +52,14 @@ import (
 	sutils "github.com/siglens/siglens/pkg/segment/utils"
 )
 
-const c17aWorkers = 4
+var c17aWorkers = 4
 const c17aAnswerDeadline = 15 * time.Second
 const c17aProbeDeadline = 10 * time.Second
 
 func init() {
+	if os.Getenv("C17A_ONE") != "" { // one server, lines in order: a run that can be repeated exactly
+		c17aWorkers = 1
+	}
 	register(&Suite{Name: "alive", Gen: c17aGen, Exec: c17aExec, Parallel: c17aWorkers,
 		Rule: "one request per line to a real server process (cmd/startup.Main, both HTTP servers): every route of the ingest and query routers, valid requests mutated structurally + query texts of every language through the routes that carry them; after every request: answered in time, process alive, trivial search answered; non-trivial = the request differs from the route's valid template"})
 }
@@ -497,7 +501,15 @@ var c17aTokens = []string{"@DASHID@", "@FOLDER@", "@ALERTID", "@CONTACT"}
 
 func c17aTok(t string) string { return t + strings.Repeat("@", 36-len(t)) }
 
+// a start time "one minute ago" in nanoseconds (19 digits like what replaces it); the end time is 5 ms later
+const c17aNowNanoToken = 1234567890123456789
+
 func (s *c17aSB) subst(b []byte) []byte {
+	if bytes.Contains(b, []byte("12345678901")) {
+		ns := time.Now().Add(-time.Minute).UnixNano()
+		b = bytes.ReplaceAll(b, []byte(strconv.FormatInt(c17aNowNanoToken, 10)), []byte(strconv.FormatInt(ns, 10)))
+		b = bytes.ReplaceAll(b, []byte(strconv.FormatInt(c17aNowNanoToken+5000000, 10)), []byte(strconv.FormatInt(ns+5000000, 10)))
+	}
 	if !bytes.Contains(b, []byte("@@@@@@@@")) {
 		return b
 	}
@@ -541,12 +553,32 @@ func c17aExec(line string) Result {
 		if len(f) != 4 || (f[1] != "i" && f[1] != "q") || !c17aRouteIDRe.MatchString(f[2]) {
 			return Result{Out: "bad-op"}
 		}
+	case "sq": // like rq, followed by the requests that PREPARE it (sent first, to the same server): <i|q>:<hex> …
+		if len(f) < 5 || (f[1] != "i" && f[1] != "q") || !c17aRouteIDRe.MatchString(f[2]) {
+			return Result{Out: "bad-op"}
+		}
 	case "ws":
 		if len(f) != 3 || !c17aRouteIDRe.MatchString(f[1]) {
 			return Result{Out: "bad-op"}
 		}
 	default:
 		return Result{Out: "bad-op"}
+	}
+	type prepT struct {
+		srv string
+		raw []byte
+	}
+	var preps []prepT
+	if f[0] == "sq" {
+		for _, t := range f[4:] {
+			srv, hx, ok := strings.Cut(t, ":")
+			b, err := hex.DecodeString(hx)
+			if !ok || (srv != "i" && srv != "q") || err != nil || hx == "" {
+				return Result{Out: "bad-op"}
+			}
+			preps = append(preps, prepT{srv, b})
+		}
+		f = f[:4]
 	}
 	payload, err := hex.DecodeString(f[len(f)-1])
 	if err != nil || f[len(f)-1] == "" {
@@ -589,9 +621,32 @@ func c17aExec(line string) Result {
 		}
 	}
 	witness := trunc(strconv.Quote(string(payload)), 1500)
+	for i, pr := range preps {
+		pp := s.qport
+		if pr.srv == "i" {
+			pp = s.iport
+		}
+		witness = fmt.Sprintf("%s AFTER (%s) %s", witness, pr.srv, trunc(strconv.Quote(string(pr.raw)), 700))
+		c := c17aHTTP(pp, s.subst(pr.raw), c17aAnswerDeadline)
+		if s.hasExited() || (c.err != "" && c17aGone(s, pp)) {
+			suffix, msg := s.died()
+			fail("alive/"+route+"/process-died"+suffix, fmt.Sprintf("%s (while answering preparing request %d); request: %s", msg, i+1, witness))
+			tags = append(tags, "died")
+			replace()
+			res.Tags = tags
+			return res
+		}
+	}
+	if len(preps) > 0 {
+		// what the flush timers do sooner or later: the prepared data is in its final place (the internal indexes of
+		// the trace routes are searched in flushed segments only)
+		if err := s.flush(); err != nil && !s.hasExited() {
+			tags = append(tags, "flush-failed")
+		}
+	}
 	var a c17aAns
 	port := s.qport
-	if f[0] == "rq" && f[1] == "i" {
+	if f[0] != "ws" && f[1] == "i" {
 		port = s.iport
 	}
 	raw := s.subst(payload)
@@ -635,7 +690,7 @@ func c17aExec(line string) Result {
 		return res
 	}
 	// a client that scrolls: an answer that carries a scroll id is continued (two more pages)
-	if m := c17aScrollIDRe.FindSubmatch(a.body); m != nil && f[0] == "rq" {
+	if m := c17aScrollIDRe.FindSubmatch(a.body); m != nil && f[0] != "ws" {
 		tags = append(tags, "scroll-continued")
 		for page := 0; page < 2; page++ {
 			body := `{"scroll":"1m","scroll_id":"` + string(m[1]) + `"}`
